@@ -55,7 +55,28 @@ DECLS = {
     "SB": ("class SB { public static int y = 5; public constructor() -> SB = default; }", [], ["echo(SB.y);"]),
     "SA": ("class SA { public static int x = SB.y + 1; public constructor() -> SA = default; }", ["SB"], ["echo(SA.x);"]),
     "SC": ("static class SC { public static int z = SA.x * 2; }", ["SA"], ["echo(SC.z);"]),
+    # hunt C10/d1: static initialisers of a generic class that is used as a BASE (instantiated while the class table is built)
+    "Cn": ("static class Cn { public static function next() -> int { echo(\"next\"); return 42; } }", [], []),
+    "say": ("function say(string s) -> int { echo(s); return 10; }", [], []),
+    "GT": ("class GT<T> { public static int t = 1 + Cn.next(); public constructor() -> GT<T> = default; }", ["Cn"], []),
+    "AT": ("class AT extends GT<int> { public constructor() -> AT { super(); } }", ["GT"], ["echo(AT.t);"]),
+    "GS": ("class GS<T> { public static int g = say(\"init GS\"); public constructor() -> GS<T> = default; }", ["say"], []),
+    "AS": ("class AS extends GS<int> { public constructor() -> AS { super(); } }", ["GS"], ["echo(AS.g);"]),
+    "HS": ("class HS<T> { public static int h = say(\"init HS\"); public constructor() -> HS<T> = default; }", ["say"], []),
+    "BS": ("class BS extends HS<int> { public constructor() -> BS { super(); } }", ["HS"], ["echo(BS.h);"]),
+    # hunt C10/d2: two generic classes whose type parameter has the same name, one of them bounded
+    "Foo": ("class Foo { public constructor() -> Foo = default; }", [], []),
+    "Qv": ("class Qv { public constructor() -> Qv = default; }", [], []),
+    "Zb": ("class Zb<T extends Foo> { public constructor() -> Zb<T> = default; }", ["Foo"], []),
+    "Gv": ("class Gv<T> { public constructor() -> Gv<T> = default; public virtual function f(T x) -> int { return 1; } public virtual function f(Foo x) -> int { return 3; } }", ["Foo"], []),
+    "Dv": ("class Dv<T> extends Gv<T> { public constructor() -> Dv<T> { super(); } public override function f(T x) -> int { return 2; } }", ["Gv", "Qv"],
+           ["Gv<Qv> gv = new Dv<Qv>();", "echo(gv.f(new Qv()));", "echo(gv.f(new Foo()));"]),
+    "Ga": ("abstract class Ga<T> { public constructor() -> Ga<T> = default; public virtual function f(T x) -> int; public virtual function f(Foo x) -> int { return 3; } }", ["Foo"], []),
+    "BadDb": ("class BadDb<T> extends Ga<T> { public constructor() -> BadDb<T> { super(); } public function f(T x) -> string { return \"two\"; } }", ["Ga", "Qv"],
+              ["Ga<Qv> ga = new BadDb<Qv>();", "echo(ga.f(new Qv()));"]),
 }
+# subsets that the size bounds of the quick tier would leave out
+EXTRA_SUBSETS = [("say", "GS", "AS", "HS", "BS"), ("Foo", "Qv", "Zb", "Gv", "Dv"), ("Foo", "Qv", "Zb", "Ga", "BadDb")]
 
 
 def closed(sub):
@@ -121,6 +142,10 @@ def main(tier):
             if c not in have and len(c) <= 5:
                 have.add(c)
                 subs.append(c)
+    for c in EXTRA_SUBSETS:
+        c = tuple(d for d in DECLS if d in c)
+        if c not in set(subs):
+            subs.append(c)
     ck.set_deadline(1700 if tier == "thorough" else 170)
     nruns = 0
     outs = set()
@@ -133,7 +158,7 @@ def main(tier):
             accepted += 1
         else:
             ck.note("subset %s is not accepted in its first order: %s" % (list(sub), obs[0]))
-            if "BadLeaf" not in sub:
+            if "BadLeaf" not in sub and "BadDb" not in sub:
                 # only the subsets that instantiate the unimplemented leaf are meant to be rejected; anything else rejected in every order
                 # exercises nothing (generator rot, or an analyser that rejects valid programs - C16's subject)
                 vacuous.append(list(sub))
